@@ -3,6 +3,7 @@
 #include "movegen.h"
 #include "endgame.h"
 #include "score.h"
+#include "position_bitboards.h"
 #include "zobrist_hash.h"
 #include <cstdio>
 #include <string>
@@ -30,6 +31,17 @@ int main(int argc, char** argv) {
         printf("score %ld mirror(\"%s\") %ld\n", va, mf.c_str(), vb);
         printf(va != vb ? "REPRODUCED\n" : "NOT-REPRODUCED\n");
         return va != vb;
+    }
+    if (mode == "terms") {
+        // term-level symmetry: outposts of each colour vs the other colour's outposts in the mirrored position, then the full score
+        Position a(argv[2]); std::string mf = mirror_fen(argv[2]); Position b(mf);
+        auto flip = [](Bitboard x) { return (Bitboard)__builtin_bswap64(x); };
+        Bitboard ow = get_outposts<WHITE>(a), obm = get_outposts<BLACK>(b), ob = get_outposts<BLACK>(a), owm = get_outposts<WHITE>(b);
+        PositionScorer s1, s2; long va = s1.score(a), vb = s2.score(b);
+        printf("outposts W %016lx mirror-B %016lx | B %016lx mirror-W %016lx | score %ld mirror %ld\n", (unsigned long)ow, (unsigned long)flip(obm), (unsigned long)ob, (unsigned long)flip(owm), va, vb);
+        bool bad = ow != flip(obm) || ob != flip(owm) || va != vb;
+        printf(bad ? "REPRODUCED\n" : "NOT-REPRODUCED\n");
+        return bad;
     }
     if (mode == "pure") {
         // purity: evaluate the position with a fresh scorer, and with scorers that evaluated other positions (and were cleared) before
